@@ -29,27 +29,27 @@ package codegen
 
 //@ func adjustForSignedBounds
 //@   option float64facts
-//@   props C15
+//@   props C15 C05
 //@   requires int-min: nMin != nil ==> is_int(*nMin)
 //@   requires int-max: nMax != nil ==> is_int(*nMax)
 //@   shape result0 = "int8" | "int16" | "int32" | "int64"
 //@   assigns nothing
-//@   ensures [C15,C02] rep: forall x int :: in_rng("int64", x) && (nMin != nil ==> x >= *nMin) && (nMax != nil ==> x <= *nMax) ==> in_rng(result0, x)
-//@   ensures [C15] drop-min: result1 ==> nMin != nil && *nMin <= rng_lo(result0)
-//@   ensures [C15] drop-max: result2 ==> nMax != nil && *nMax >= rng_hi(result0)
+//@   ensures [C15,C02,C05] rep: forall x int :: in_rng("int64", x) && (nMin != nil ==> x >= *nMin) && (nMax != nil ==> x <= *nMax) ==> in_rng(result0, x)
+//@   ensures [C15,C05] drop-min: result1 ==> nMin != nil && *nMin <= rng_lo(result0)
+//@   ensures [C15,C05] drop-max: result2 ==> nMax != nil && *nMax >= rng_hi(result0)
 //@   ensures [C15] narrow: nonempty(nMin, nMax) && (nMin == nil || *nMin < 0) ==> narrowest(result0, nMin, nMax)
 
 //@ func adjustForUnsignedBounds
 //@   option float64facts
-//@   props C15
+//@   props C15 C05
 //@   shape result0 = "uint8" | "uint16" | "uint32" | "uint64"
 //@   requires nonneg: nMin != nil && *nMin >= 0
 //@   requires int-min: is_int(*nMin)
 //@   requires int-max: nMax != nil ==> is_int(*nMax)
 //@   assigns nothing
-//@   ensures [C15,C02] rep: forall x int :: in_rng("int64", x) && x >= *nMin && (nMax != nil ==> x <= *nMax) ==> in_rng(result0, x)
-//@   ensures [C15] drop-min: result1 ==> *nMin <= rng_lo(result0)
-//@   ensures [C15] drop-max: result2 ==> nMax != nil && *nMax >= rng_hi(result0)
+//@   ensures [C15,C02,C05] rep: forall x int :: in_rng("int64", x) && x >= *nMin && (nMax != nil ==> x <= *nMax) ==> in_rng(result0, x)
+//@   ensures [C15,C05] drop-min: result1 ==> *nMin <= rng_lo(result0)
+//@   ensures [C15,C05] drop-max: result2 ==> nMax != nil && *nMax >= rng_hi(result0)
 //@   ensures [C15] narrow: nonempty(nMin, nMax) ==> narrowest(result0, nMin, nMax)
 
 // Integer hull of the admitted set, as pointers-or-nil are not available in the
@@ -62,19 +62,19 @@ package codegen
 
 //@ func getMinIntType
 //@   option float64facts
-//@   props C15
+//@   props C15 C05
 //@   requires fp-zone: fp_zone_ok(minimum) && fp_zone_ok(maximum) && fp_zone_ok_any(exclusiveMinimum) && fp_zone_ok_any(exclusiveMaximum)
 //@   shape result0 = "int8" | "int16" | "int32" | "int64" | "uint8" | "uint16" | "uint32" | "uint64"
 //@   assigns nothing
-//@   ensures [C15,C02] rep: forall x int :: in_rng("int64", x) && old(lower_ok(minimum, exclusiveMinimum, x)) && old(upper_ok(maximum, exclusiveMaximum, x)) ==> in_rng(result0, x)
-//@   ensures [C15] drop-min: forall x int :: result1 && in_rng(result0, x) ==> old(lower_ok(minimum, exclusiveMinimum, x))
-//@   ensures [C15] drop-max: forall x int :: result2 && in_rng(result0, x) ==> old(upper_ok(maximum, exclusiveMaximum, x))
+//@   ensures [C15,C02,C05] rep: forall x int :: in_rng("int64", x) && old(lower_ok(minimum, exclusiveMinimum, x)) && old(upper_ok(maximum, exclusiveMaximum, x)) ==> in_rng(result0, x)
+//@   ensures [C15,C05] drop-min: forall x int :: result1 && in_rng(result0, x) ==> old(lower_ok(minimum, exclusiveMinimum, x))
+//@   ensures [C15,C05] drop-max: forall x int :: result2 && in_rng(result0, x) ==> old(upper_ok(maximum, exclusiveMaximum, x))
 
 //@ spec prim_name(t) = dyn(t) == "*codegen.PointerType" ? t.Type.Type : t.Type
 
 //@ func PrimitiveTypeFromJSONSchemaType @integer
 //@   option float64facts
-//@   props C15
+//@   props C15 C05
 //@   shape jsType = "integer"
 //@   shape format = "" | "date"
 //@   requires nonnil: minimum != nil && maximum != nil && exclusiveMinimum != nil && exclusiveMaximum != nil
@@ -83,9 +83,9 @@ package codegen
 //@   ensures [C15] ok: result1 == nil && result0 != nil
 //@   ensures [C15] off: !minIntSize ==> prim_name(result0) == "int" && unchanged(*minimum) && unchanged(*maximum) && unchanged(*exclusiveMinimum) && unchanged(*exclusiveMaximum)
 //@   ensures [C15] type: minIntSize ==> int_type(prim_name(result0))
-//@   ensures [C15,C02] rep: forall x int :: minIntSize && in_rng("int64", x) && lower_ok(old(*minimum), old(*exclusiveMinimum), x) && upper_ok(old(*maximum), old(*exclusiveMaximum), x) ==> in_rng(prim_name(result0), x)
-//@   ensures [C15] drop-lower: forall x int :: minIntSize && in_rng(prim_name(result0), x) ==> (lower_ok(*minimum, *exclusiveMinimum, x) <==> lower_ok(old(*minimum), old(*exclusiveMinimum), x))
-//@   ensures [C15] drop-upper: forall x int :: minIntSize && in_rng(prim_name(result0), x) ==> (upper_ok(*maximum, *exclusiveMaximum, x) <==> upper_ok(old(*maximum), old(*exclusiveMaximum), x))
+//@   ensures [C15,C02,C05] rep: forall x int :: minIntSize && in_rng("int64", x) && lower_ok(old(*minimum), old(*exclusiveMinimum), x) && upper_ok(old(*maximum), old(*exclusiveMaximum), x) ==> in_rng(prim_name(result0), x)
+//@   ensures [C15,C05] drop-lower: forall x int :: minIntSize && in_rng(prim_name(result0), x) ==> (lower_ok(*minimum, *exclusiveMinimum, x) <==> lower_ok(old(*minimum), old(*exclusiveMinimum), x))
+//@   ensures [C15,C05] drop-upper: forall x int :: minIntSize && in_rng(prim_name(result0), x) ==> (upper_ok(*maximum, *exclusiveMaximum, x) <==> upper_ok(old(*maximum), old(*exclusiveMaximum), x))
 //@   ensures [C15,C03] pointer: (pointer <==> dyn(result0) == "*codegen.PointerType") && (!pointer ==> dyn(result0) == "codegen.PrimitiveType")
 
 // Deliberate error drops (C18 error-propagation obligations): writes into an
